@@ -307,6 +307,16 @@ fn include(
             let mut iter = TracebackIterator::from(buf.lines());
             let parsed_node = parse_section("temp_included_section", &mut iter, path, depth)?;
 
+            // An unbalanced `}` in the included file would otherwise hide everything after it
+            while let Some(line) = iter.next() {
+                quiet_assert(
+                    clean_up(line).is_empty(),
+                    "Unexpected `}` in included file",
+                    path,
+                    &mut iter,
+                )?;
+            }
+
             match parsed_node {
                 ConfigNode::Section(_, children) => Ok(children),
                 _ => Err(ConfigError::new(
